@@ -48,35 +48,60 @@ def build_case(cid, start, budget, choices):
 
 
 def class_sweep(rng):
-    """every alternative of every non-terminal at least once: the target alternative is chosen at the first
-    occurrence of the non-terminal, minimal alternatives elsewhere; three contexts (seeds)"""
+    """every alternative of every non-terminal at least once, in three contexts: a shortest path of alternatives
+    from the start symbol to the non-terminal is forced, the target alternative is taken at its first occurrence,
+    everything else gets a (context-seeded) non-growing alternative"""
     g = svgen.grammar()
+    prod = g["prod"]
+
+    def path_to(start, target):
+        from collections import deque
+        prev = {start: None}
+        q = deque([start])
+        while q:
+            a = q.popleft()
+            if a == target:
+                break
+            for k, alt in enumerate(prod[a], 1):
+                for sym in alt["rhs"]:
+                    if sym["t"] == "nt" and sym["v"] not in prev:
+                        prev[sym["v"]] = (a, k)
+                        q.append(sym["v"])
+        if target not in prev:
+            return None
+        path = []
+        cur = target
+        while prev[cur] is not None:
+            a, k = prev[cur]
+            path.append((a, k))
+            cur = a
+        return list(reversed(path))
     out = []
-    for nt, alts in sorted(g["prod"].items()):
+    for nt, alts in sorted(prod.items()):
         for k in range(1, len(alts) + 1):
             for ctx in range(3):
-                hit = [False]
                 r2 = random.Random(zlib.crc32(("%s/%d/%d" % (nt, k, ctx)).encode()))
+                starts = ["source"] + ([s for s in STARTS if path_to(s, nt) is not None] if ctx == 2 else [])
+                start = r2.choice(starts)
+                path = path_to(start, nt)
+                if path is None:
+                    continue
+                st = {"i": 0, "hit": False}
 
-                def choose(cur, allowed, b, alts_, nt=nt, k=k, hit=hit, r2=r2):
-                    if cur == nt and not hit[0] and k in allowed:
-                        hit[0] = True
+                def choose(cur, allowed, b, alts_, path=path, st=st, nt=nt, k=k, r2=r2, ctx=ctx):
+                    if not st["hit"] and st["i"] < len(path) and cur == path[st["i"]][0]:
+                        st["i"] += 1
+                        return path[st["i"] - 1][1]
+                    if not st["hit"] and st["i"] == len(path) and cur == nt:
+                        st["hit"] = True
                         return k
-                    grow = [a for a in allowed if alts_[a - 1]["c"] == 1]
-                    if not hit[0] and grow and r2.random() < 0.75:
-                        return r2.choice(grow)
-                    if not hit[0]:
-                        return r2.choice(allowed)
                     zero = [a for a in allowed if alts_[a - 1]["c"] == 0]
-                    return r2.choice(zero) if zero else r2.choice(allowed)
-                start = "source" if ctx < 2 else r2.choice(STARTS)
-                for attempt in range(30):
-                    hit[0] = False
-                    budget = 6 + attempt
-                    ch, toks = svgen.expand(start, budget, choose)
-                    if hit[0]:
-                        out.append((start, budget, ch, "%s#%d" % (nt, k)))
-                        break
+                    if ctx == 0:
+                        return zero[0]
+                    return r2.choice(zero)
+                ch, toks = svgen.expand(start, 60, choose)
+                if st["hit"]:
+                    out.append((start, 60, ch, "%s#%d" % (nt, k)))
     return out
 
 
